@@ -57,6 +57,36 @@ def fns_mentioning(F, adt_short, field):
     return out
 
 
+_CALLED = {}
+
+
+def is_dead(F, name):
+    """a private function that nothing in the crate calls (left-over helper): it cannot execute"""
+    f = F.fns[name]
+    if f['kind'] == 'Closure' or f.get('impl_trait') or 'Public' in (f.get('vis') or 'Public'):
+        return False
+    key = id(F)
+    if key not in _CALLED:
+        called = set()
+        for n_, f_ in F.fns.items():
+            for b in f_['blocks']:
+                t = b['term']
+                if t['k'] == 'call' and 'fn' in t:
+                    called.add(t['fn'])
+                    if t.get('resolved'):
+                        called.add(t['resolved'])
+                for st in b['stmts']:
+                    if st['k'] == 'assign':
+                        for o in [st['rv'].get('op')] + st['rv'].get('ops', []):
+                            if isinstance(o, dict) and o.get('fn'):
+                                called.add(o['fn'])
+                for o in t.get('args', []):
+                    if isinstance(o, dict) and o.get('fn'):
+                        called.add(o['fn'])
+        _CALLED[key] = called
+    return name not in _CALLED[key]
+
+
 def constructs(F, fn, adt_short):
     """does fn's own body build an aggregate of that ADT"""
     for b in F.fns[fn]['blocks']:
@@ -537,6 +567,8 @@ def _who_may_write(ctx, root):
             for a in g.x.atoms_on(pat, ops=WRITE_OPS):
                 allowed.add(site_key(g, a.nid))
         for c in cands:
+            if is_dead(F, c):
+                continue
             for fl in FLAVOURS:
                 g = ctx.graph(c, fl)
                 for a in g.x.atoms_on(pat, ops=WRITE_OPS):
